@@ -135,6 +135,10 @@ public:
                                                                                \
       return tainted<T, T_Sbx>::internal_factory(reinterpret_cast<T>(target)); \
     } else {                                                                   \
+      /* "number op pointer" would produce a pointer that was never checked */ \
+      static_assert(!std::is_pointer_v<decltype(raw_rhs)>,                     \
+                    "Pointer arithmetic is only supported with the tainted "   \
+                    "pointer as the first operand");                           \
       auto raw = impl().get_raw_value();                                       \
       auto ret = raw opSymbol raw_rhs;                                         \
       using T_Ret = decltype(ret);                                             \
